@@ -16,7 +16,7 @@ from mc.ref.discrete import posterior
 from mc.stats import Stats
 
 EXPLORER = "E2"
-RULE = ("(b) E2: every history of <=3 questions from an 8-letter alphabet (plain posterior, with evidence, joint=False, "
+RULE = ("(b) E2: every history of <=3 questions from an 8-letter alphabet (10 for belief propagation: + calibrate, max_calibrate) (plain posterior, with evidence, joint=False, "
         "virtual evidence on two different variables, MAP over a subset, MAP over all variables, explicit elimination "
         "order) on ONE shared VariableElimination / BeliefPropagation / CausalInference / BayesianModelSampling engine: "
         "every answer must equal a fresh engine's (and the reference joint), the model must be untouched. (a) E1 purity: "
@@ -42,7 +42,7 @@ def groups(tier, seed):
     out = []
     for mi in range(len(MODELS)):
         for eng in ("ve", "bp", "ci", "sampling"):
-            for first in range(8):
+            for first in range(10 if eng == "bp" else 8):
                 out.append({"part": "hist", "model": mi, "engine": eng, "first": first, "depth": 4 if (tier == "thorough" and eng == "ve") else 3})
     for mi in range(len(MODELS)):
         out.append({"part": "purity", "model": mi})
@@ -177,6 +177,12 @@ def _hist(st, g, only=None):
     if eng in ("ve", "bp"):
         alpha = _ve_alphabet(ref, lab)
         mk = (lambda: VariableElimination(model)) if eng == "ve" else (lambda: BeliefPropagation(model))
+        if eng == "bp":
+            # calibration calls are part of the shared engine's history too
+            def _cal(e, op):
+                getattr(e, op)()
+                return {str(sorted(map(str, k))): v.normalize(inplace=False) for k, v in e.get_clique_beliefs().items()}
+            alpha = alpha + [("calibrate", lambda e: _cal(e, "calibrate"), None), ("max_calibrate", lambda e: _cal(e, "max_calibrate"), None)]
     elif eng == "ci":
         if not (model.has_edge(A, C) or model.has_edge(B, C)):
             return
@@ -221,7 +227,7 @@ def _hist(st, g, only=None):
             fresh[i] = ("exc", type(ex).__name__)
     hists = []
     for d in range(1, g["depth"] + 1):
-        for tail in product(range(8), repeat=d - 1):
+        for tail in product(range(len(alpha)), repeat=d - 1):
             hists.append([g["first"]] + list(tail))
     seen_states = set()
     for h in hists:
